@@ -264,18 +264,18 @@ BuySingle(s, who, to, inD, maxIn, outD, outAmt) ==
   ELSE LET m == SwapCoins(s.bal, EscOfPair(s, inD, outD), who, to, inD, c.amt, outD, outAmt) IN
        IF ~m.ok THEN Fail(s, "funds") ELSE Done([s EXCEPT !.bal = m.bal], 0, EmptyF, "")
 
-(* The code passes (inputAddress, outputAddress) to BOTH legs: the first leg
-   pays the intermediate standard coin to the recipient and the second leg
-   takes it from the sender (finding F1).  why = "F1" marks exactly the
-   successful orders on which this is visible. *)
-F1Why(who, to, stdAmt) == IF to # who /\ stdAmt > 0 THEN "F1" ELSE ""
+(* First leg: the intermediate standard coin goes to the SENDER, who pays it
+   into the second pool (fix of finding F1: before it both legs used
+   (inputAddress, outputAddress), so with recipient # sender the recipient
+   received the standard coin and the sender was debited for it). *)
+F1Why(who, to, stdAmt) == ""
 
 (* doubleTradeExactInputForOutput *)
 SellDouble(s, who, to, inD, inAmt, outD, minOut) ==
   LET c1 == CalcIn(s, inD, inAmt, s.std) IN
   IF ~c1.ok THEN Fail(s, "pool")
   ELSE
-    LET m1 == SwapCoins(s.bal, s.pools[inD].esc, who, to, inD, inAmt, s.std, c1.amt) IN
+    LET m1 == SwapCoins(s.bal, s.pools[inD].esc, who, who, inD, inAmt, s.std, c1.amt) IN
     IF ~m1.ok THEN Fail(s, "funds")
     ELSE
       LET s1 == [s EXCEPT !.bal = m1.bal]
@@ -296,7 +296,7 @@ BuyDouble(s, who, to, inD, maxIn, outD, outAmt) ==
     IF ~c1.ok THEN Fail(s, "pool")
     ELSE IF c1.amt > maxIn THEN Fail(s, "bound")
     ELSE
-      LET m1 == SwapCoins(s.bal, s.pools[inD].esc, who, to, inD, c1.amt, s.std, c2.amt) IN
+      LET m1 == SwapCoins(s.bal, s.pools[inD].esc, who, who, inD, c1.amt, s.std, c2.amt) IN
       IF ~m1.ok THEN Fail(s, "funds")
       ELSE LET m2 == SwapCoins(m1.bal, s.pools[outD].esc, who, to, s.std, c2.amt, outD, outAmt) IN
            IF ~m2.ok THEN Fail(s, "funds_std")
